@@ -178,6 +178,11 @@ theorem waveSiteG_ok (ops : FOps) (w : List WEntry) (c : Option UInt64) (r : Opt
         | none => simp
         | some t =>
           simp only [Option.isSome_some, Bool.not_true, Bool.false_eq_true, if_false]
+          have hu : GuardedUtils.extentsSiteG Guards.source.utilOvwZero toI64 n.toNat x = .ok () :=
+            TrackUtils.extentsSiteG_ok _ (fun n qn r h => (C15Guards.util_ovw_zero_iff n qn r).mpr (Or.inr h))
+              toI64 n.toNat x t ht (toI64_inI64 x t ht)
+          rw [hu]
+          simp only [Res.bind]
           obtain ⟨size, spe, hg, hsz⟩ := TrackUtils.gen_ovw_some (cxxOps ops) n.toNat x t ht (toI64_inI64 x t ht)
           rw [hg]
           simp only
